@@ -34,6 +34,9 @@ type GOp struct {
 	// RetryFinal: when the upload is rejected, the client sends its final request once more (same session for a
 	// resumable upload): the answer must again not be a success and nothing may be stored
 	RetryFinal bool `json:"retry_final,omitempty"`
+	// StrayAfter: after the upload has completed, one more chunk is sent to the (finished) session; whatever the
+	// answer, the stored object must not change
+	StrayAfter bool `json:"stray_after,omitempty"`
 	// Upload2: two resumable sessions A = (Name, Data) and B = (Name2, Data2), started one after the other and
 	// continued chunk by chunk in alternation; A completes first
 	// AcceptGzip: a media GET sent with "Accept-Encoding: gzip"
@@ -59,6 +62,9 @@ type GChunk struct {
 	Hi    int  `json:"hi"`              // exclusive
 	Total int  `json:"total"`           // -1 = unknown ("*")
 	Query bool `json:"query,omitempty"` // status query: "bytes */<total|*>" with an empty body
+	// BadLen: the body is one byte shorter than the range announces (a malformed chunk: must be refused and must not
+	// change what the session has received)
+	BadLen bool `json:"badlen,omitempty"`
 }
 
 type GSrc struct {
@@ -647,6 +653,16 @@ func (w *gcsWorld) stepUpload(o *GOp) (string, string) {
 			}
 			// model of the session: truncate to lo, append
 			wantStatus := 0
+			if ch.BadLen && body != nil && len(body) >= 2 {
+				resp := w.do(gcs.ReqResumableChunk(session, body[:len(body)-1], cr, o.No308, false))
+				if resp.Panic != "" {
+					return fail("panic", "panic: %s", resp.Panic)
+				}
+				if resp.Status/100 == 2 || resp.Status == 308 {
+					return fail("status", "chunk %d announces %d bytes but carries %d: status %d, want a refusal", i, len(body), len(body)-1, resp.Status)
+				}
+				continue // nothing received
+			}
 			if body != nil {
 				if ch.Lo > len(recv) {
 					wantStatus = 400
@@ -695,6 +711,11 @@ func (w *gcsWorld) stepUpload(o *GOp) (string, string) {
 		}
 		if string(recv) != string(o.Data) {
 			return fail("internal", "chunk plan does not reassemble the payload")
+		}
+		if o.StrayAfter && final.Status == 200 {
+			if r2 := w.do(gcs.ReqResumableChunk(session, []byte("XXXX"), "bytes 0-3/*", false, false)); r2.Panic != "" {
+				return fail("panic", "panic on a chunk sent to the finished session: %s", r2.Panic)
+			}
 		}
 	default:
 		return fail("internal", "unknown protocol")
